@@ -579,7 +579,7 @@ func gateSourceAgrees(c *Ctx, id string) {
 	oi := observerInfo(c, id)
 	// the flag the gate reads
 	var gateFlag *types.Var
-	for f := range w.syncCallees(oi.gate, 1, false) {
+	for f := range oi.gateUnit(w) {
 		allInstrs(f, func(in ssa.Instruction) {
 			if v, ok := in.(ssa.Value); ok {
 				if fl, _ := flagRead(v); fl != nil && fl.Name() == "Disabled" && fl.Pkg() != nil && strings.HasSuffix(fl.Pkg().Path(), "/config") {
